@@ -474,7 +474,49 @@ def rule_n6(ctx):
     ctx.check(ok, "N6-dnf-shape", f"{LANG}:convert_to_dnf", "disjunct lists of every argument", site(f), f"found {src(dl[0].value) if dl else None}", "every argument converted and split")
 
 
+def rule_n7(ctx):
+    """Equality of formulas distinguishes the connective / quantifier kind (the simplifying __and__/__or__ return one operand when `self == other`)."""
+    concrete, abstract = formula_classes(ctx.repo, "C09.N7")
+    m = ctx.repo.module(LANG, "C09.N7")
+    allc = {**concrete, **abstract}
+    n = 0
+    for name, cls in sorted(allc.items()):
+        eq = m.get(f"{name}.__eq__")
+        if not isinstance(eq, ast.FunctionDef) or any("abstractmethod" in src(d) for d in eq.decorator_list):
+            continue
+        n += 1
+        t = " ".join(src(eq).split())
+        covers = expand_classes([name], concrete, abstract, m)
+        exact = "type(self) is type(other)" in t or "type(other) is type(self)" in t
+        inst = [x for x in ast.walk(eq) if isinstance(x, ast.Call) and call_name(x) == "isinstance" and src(x.args[0]) == "other"]
+        split = "split_conjunction(self) == split_conjunction(other)" in t or "split_disjunction(self) == split_disjunction(other)" in t
+        if exact or split:
+            ctx.ok("N7-eq-distinguishes-kind", f"{LANG}:{name}.__eq__", "exact type test", site(eq), "type identity (or flattening of the same connective)")
+            continue
+        if not inst:
+            raise Unrecognised("C09.N7", f"{LANG}:{name}.__eq__", "no type test recognised")
+        for c in inst:
+            k = (isinstance_classes(c) or ["?"])
+            cov = expand_classes(k, concrete, abstract, m)
+            ctx.check(len(cov) <= 1, "N7-eq-distinguishes-kind", f"{LANG}:{name}.__eq__", f"isinstance(other, {', '.join(k)})", site(c),
+                      f"equality only requires `other` to be an instance of {k}, which covers the different kinds {sorted(cov)}: e.g. a forall equals the exists with the same binder and body, "
+                      "and `f | g` / `f & g` (which return one operand when `self == other`) silently drop the other one", "covers a single concrete class")
+    if n < 8:
+        raise Unrecognised("C09.N7", LANG, f"only {n} __eq__ methods of formula classes found")
+    # ensure_unique_bound_variables: names bound anywhere below must be avoided (recursive collector)
+    f = ctx.repo.func(LANG, "ensure_unique_bound_variables", "C09.N7")
+    t = " ".join(src(f).split())
+    rec = "BoundVariablesCollector().collect(formula).difference(formula.bound_variables())" in t or "BoundVariablesCollector().collect(formula)" in t
+    nonrec = ".inner_formula.bound_variables()" in t and not rec
+    if not rec and not nonrec:
+        raise Unrecognised("C09.N7", f"{LANG}:ensure_unique_bound_variables", "collection of inner bound names not recognised")
+    ctx.check(rec, "N7-rename-avoids-inner-binders", f"{LANG}:ensure_unique_bound_variables", "names bound at any depth below are avoided", site(f),
+              "the names to avoid are collected with the non-recursive bound_variables() (documented: 'only non-empty for quantified formulas', one level): a variable renamed to "
+              "<stem>_<n> can be captured by a quantifier two or more levels further inside that binds the same name", "recursive BoundVariablesCollector")
+
+
 def run(ctx) -> str:
+    ctx.guarded("N7", lambda: rule_n7(ctx))
     ctx.guarded("N1", lambda: rule_n1(ctx))
     ctx.guarded("N2", lambda: rule_n2(ctx))
     ctx.guarded("N3", lambda: rule_n3(ctx))
